@@ -200,6 +200,9 @@ mod router;
 
 #[cfg(feature="__rt__")]
 mod ohkami;
+#[cfg(ohkami_verif)]
+#[cfg(feature="__rt_native__")]
+pub mod __verif;
 #[cfg(feature="__rt__")]
 pub use ohkami::{Ohkami, Route};
 
